@@ -182,7 +182,7 @@ def emit(p, spec, ops, without_refused=False):
             for j, f in enumerate(o['files']):
                 if without_refused and j in (o.get('refused') or []):
                     continue
-                idx.append(p.op_R(o['s'], f, 1))
+                idx.append(p.op_R(o['s'], f, 1, keep=1 if j in (o.get('refused') or []) else 0))
             idx.append(p.op_simple('D', o['s']))
         elif k == 'X':
             idx.append(p.op_X(o['s'], o['n'], o['t'], *o['gp']))
